@@ -330,7 +330,37 @@ fn c01_build(_ctx: &Ctx, tier: Tier, seed: u64) -> Vec<Job<'static>> {
             sc
         }),
     };
-    vec![ff, wild, disk]
+    let corrupt = Job {
+        label: "undetected-by-CRC corruption: PDU CRC off, modular checksum, one bit of the first data octet of a file-data PDU (first transmission or retransmission) flipped in transit, FileChecksumFailure handler drawn from {default, Cancel, Suspend, Ignore, Abandon}, alone or with one more loss".into(),
+        n: n_wild / 10,
+        gen: Box::new(move |i| {
+            let mut rng = Rng::new(mix(seed ^ 0xC01C, i as u64));
+            let k = Knobs { envelope: true, max_segments: 8, ..Knobs::default() };
+            let mut sc = gen::pair_cfg(&mut rng, &k);
+            for e in sc.ents.iter_mut() {
+                e.crc = false;
+                e.null_cksum = false;
+            }
+            gen::add_file_put(&mut sc, &mut rng, &k, 0, 1, 0);
+            let prof = estimate_profile(&sc);
+            let nfd = prof.fwd.iter().filter(|x| **x == Kind::Fd).count() as u64;
+            // file-data PDU: 4 fixed octets, three identifiers, 32-bit offset, then the data
+            let bit = 8 * (8 + 3 * sc.idw as u32) + rng.below(8) as u32;
+            sc.script.push(Entry::Fault { src: 0, dst: 1, sel: Sel::Kind(Kind::Fd, rng.below(nfd + 2) as u32), act: Act::Flip { bits: vec![bit] } });
+            if rng.chance(1, 3) {
+                sc.script.push(Entry::Fault { src: 0, dst: 1, sel: Sel::Nth(rng.below(prof.fwd.len() as u64 + 2) as u32), act: Act::Drop });
+            }
+            let h = rng.below(5) as u8;
+            if h > 0 {
+                sc.ents[1].handlers.push((5, h.min(4)));
+                if rng.chance(1, 2) {
+                    sc.ents[0].handlers.push((5, h.min(4)));
+                }
+            }
+            sc
+        }),
+    };
+    vec![ff, wild, disk, corrupt]
 }
 
 /// 1..2 storage faults at seeded places
@@ -744,7 +774,7 @@ pub fn registry(prop: &str) -> Option<Check> {
             rule: "one run = one (configuration, file, link-fault script) drawn from VERIF_SEED; a run is non-trivial when at least one fault fired or a user operation landed; distinct = distinct fingerprint of the sequence of (direction, PDU kind, offset, fate, user op, indication kind)",
             assumptions: vec![
                 "source files are not modified during a transfer; destination names are unique per transaction",
-                "corruption is injected only with CRC on",
+                "corruption is injected only with CRC on, except single-bit flips in the data octets of a file-data PDU under the modular checksum (which always detects them)",
                 "timeouts >= 1 s, limit >= 1, segment size >= 24",
             ],
             oracle: Box::new(oracle::c01),
